@@ -22,6 +22,7 @@ out.append("### 9.2 Known findings (genuine, recorded instead of repaired)\n")
 out.append("| property | key | why not repaired here |\n|---|---|---|")
 why = {"C02": "needs a redesign of chained-string verification (all piece lengths, ordering of tail candidates); not a small patch",
        "C03": "engine design (shortest/empty match first, split of counted repeats, chained lazy ranges); the pinned tests assert the zero-length behaviour",
+       "C12": "same root cause as the C02 finding (chained strings with a variable-length piece)",
        "C08": "saving after a rules-level string define needs the value to live in the arena; touches the format",
        "C13": "evaluation-time re-iteration has no resumable state; needs an API-level design decision",
        "C14": "first_block/next_block contract gives no block for an empty range at a boundary; harmless but real",
